@@ -159,10 +159,9 @@ def check(ck):
             # assignment from the parameter under `if p is not None`
             arg_asg = []
             for s in fa.stmts(ast.Assign):
-                if isinstance(s.value, ast.Name) and s.value.id == p:
-                    g = fa.enclosing(s, ast.If)
-                    if g is not None and A.norm(g.test) == "%s is not None" % p:
-                        arg_asg.append(s)
+                if isinstance(s.value, ast.Name) and s.value.id == p and not isinstance(s.targets[0], ast.Name) or \
+                        isinstance(s.value, ast.Name) and s.value.id == p and isinstance(s.targets[0], ast.Name) and s.targets[0].id != p:
+                    arg_asg.append(s)
             if not arg_asg:
                 continue
             tgt = A.norm(arg_asg[0].targets[0])
